@@ -210,6 +210,16 @@ def plan(tier, seed):
         for e in _events(tuple(s["shape"])):
             # quick tier: length 3 on the 1-D source, length 2 on the others
             shards.append({"source": s, "first": e["name"], "L": L if (tier != "quick" or len(s["shape"]) == 1) else 2, "tier": tier})
+    # layout sweep: every mutating event on every chunking of (6,) and of (2,3)
+    # (histories of length 1 in quick, 2 in thorough) -- which elements an
+    # assignment writes must not depend on where the block boundaries fall
+    from mc.domains import compositions
+
+    sweep = [E.src((6,), (c,)) for c in compositions(6)] + [E.src((2, 3), (c0, c1)) for c0 in compositions(2) for c1 in compositions(3)]
+    for s in sweep:
+        for e in _events(tuple(s["shape"])):
+            if e["kind"] == "mutate":
+                shards.append({"source": s, "first": e["name"], "L": 1 if tier == "quick" else 2, "tier": tier, "sweep": True})
     if tier != "quick":
         # length 4 over a compact alphabet on one source
         for e in COMPACT:
@@ -220,7 +230,7 @@ def plan(tier, seed):
         "coverage": {
             "exhaustive": True,
             "bounds": {"history_length": L, "events": len(_events((6,))), "sources": len(srcs), "length4_compact_alphabet": len(COMPACT) if tier != "quick" else 0},
-            "rule": "all event histories of length <= L from the reset state over {derive (slice, reverse, elemwise, reduction, transpose, rechunk, copy, mask), x[key]=value for int / negative int / slice / stepped / negative-step / list / Ellipsis / NumPy mask / dask mask / dask int array / tuple keys x scalar / 0-d / row / full-shape / dask-array / masked values, ufunc out=x, where= with out=x, +=, compute / keys / graph / to_delayed / persist / pickle touches}; after each history every pool member computes to its reference, keys and to_delayed agree with compute, sources untouched. Non-trivial = history with a derivation before a mutation",
+            "rule": "all event histories of length <= L from the reset state over {derive (slice, reverse, elemwise, reduction, transpose, rechunk, copy, mask), x[key]=value for int / negative int / slice / stepped / negative-step / list / Ellipsis / NumPy mask / dask mask / dask int array / tuple keys x scalar / 0-d / row / full-shape / dask-array / masked values, ufunc out=x, where= with out=x, +=, compute / keys / graph / to_delayed / persist / pickle touches}; after each history every pool member computes to its reference, keys and to_delayed agree with compute, sources untouched; plus a layout sweep: every mutating event (history length 1 quick, 2 thorough) on every chunking of (6,) and (2,3). Non-trivial = history with a derivation before a mutation",
         },
         "assumptions": ["reference model: NumPy arrays with copy semantics at derivation", "synchronous scheduler"],
     }
